@@ -54,6 +54,10 @@ class Inconclusive(Exception):
     """A solver query came back `unknown`."""
 
 
+class FrontierReached(BaseException):
+    """Frontier mode: the path reached the split depth."""
+
+
 # ---------------------------------------------------------------------------
 # helpers on z3 terms
 
@@ -336,6 +340,8 @@ class Ctx:
         self.failures: list[Failure] = []
         self.inconclusive: list = []
         self.stop_on_failure = False
+        self.frontier_depth = None
+        self.frontier: list = []
         self.prefix: list[int] = []
         self.exp_names: dict = {}  # persistent: E-constant name -> atom term
         self._vars_cache: dict = {}
@@ -463,12 +469,22 @@ class Ctx:
         First feasible option on a fresh decision; the remaining feasible
         options are recorded for backtracking."""
         pos = len(self.decisions)
+        if self.frontier_depth is not None and pos >= self.frontier_depth and pos >= len(self.prefix):
+            raise FrontierReached()
         if pos < len(self.prefix):
             k = self.prefix[pos]
             self.decisions.append(k)
             self.alts.append([])
             self.path.append(conds[k])
             return k
+        # a decision already taken on this path (re-executions of the same code
+        # by resumed / crash runs): no query needed
+        ids = {f.get_id() for f in self.path}
+        for k, c in enumerate(conds):
+            if simp(c).get_id() in ids or c.get_id() in ids:
+                self.decisions.append(k)
+                self.alts.append([])
+                return k
         feas = []
         for k, c in enumerate(conds):
             c = simp(c)
@@ -494,6 +510,8 @@ class Ctx:
 
     def prove(self, goal, label, detail=None) -> bool:
         """Discharge `assumptions & path => goal`; record a Failure otherwise."""
+        if self.frontier_depth is not None:
+            return True
         st = self.stats
         st.obligations += 1
         self.run_obligations += 1
@@ -601,6 +619,8 @@ class Ctx:
         """Translator validation on this path: concretise a model of the path
         condition, run `runner(env)` (the same real functions on plain NumPy)
         and compare with the symbolic outputs evaluated under the model."""
+        if self.frontier_depth is not None:
+            return False
         terms = []
         for v in sym.values():
             terms += list(v)
@@ -670,9 +690,14 @@ def set_cur(c):
 # exploration
 
 
-def explore(harness, ctx: Ctx, max_paths=100000, deadline=None):
-    """DFS over decision vectors with re-execution of `harness(ctx)`."""
-    stack = [[]]
+def explore(harness, ctx: Ctx, max_paths=100000, deadline=None, start=None):
+    """DFS over decision vectors with re-execution of `harness(ctx)`.
+
+    `start`: explore only the subtree under this decision prefix.  With
+    ctx.frontier_depth set, paths are cut at that depth and their prefixes are
+    collected in ctx.frontier (no obligations are posed: `prove` is disabled)
+    so that the subtrees can be explored by parallel workers."""
+    stack = [list(start) if start else []]
     set_cur(ctx)
     import sx as _sx
 
@@ -694,7 +719,12 @@ def explore(harness, ctx: Ctx, max_paths=100000, deadline=None):
             ctx._reset_run()
             try:
                 harness(ctx)
-                ctx.stats.paths += 1
+                if ctx.frontier_depth is not None:
+                    ctx.frontier.append(list(ctx.decisions))
+                else:
+                    ctx.stats.paths += 1
+            except FrontierReached:
+                ctx.frontier.append(list(ctx.decisions))
             except PathCut:
                 ctx.stats.cut_paths += 1
             except Infeasible:
